@@ -345,3 +345,6 @@ def _override_history_batch(env, cfg):
         env.claim('model_evaluations_follow_the_call_or_the_constructor_value', log.sites.count('model') == 1 + cfg['d'] * eff,
                   detail=f"call {t + 1}: override {k}: {log.sites.count('model')} model evaluations")
         env.claim('constructor_value_kept', ex.n_inner_samples == cfg['q'])
+
+
+META['explanation'] += ' Further groups: objects handed to constructors are used as given (also when empty); every pattern of update_storage flags and of per-call n_inner overrides over the first calls; prefilled storages.'
